@@ -160,3 +160,35 @@ func allPreludeFuncs(c *ctx.Ctx) []*ctx.JSNode {
 	}
 	return out
 }
+
+// squash removes all whitespace.
+func squash(s string) string {
+	var sb strings.Builder
+	for _, r := range s {
+		if r == ' ' || r == '\t' || r == '\n' || r == '\r' {
+			continue
+		}
+		sb.WriteRune(r)
+	}
+	return sb.String()
+}
+
+// isThrowIf: `if (<test>) { ... $throwRuntimeError(...) ... }` with test satisfying pred.
+func isThrowIf(st *ctx.JSNode, pred func(test *ctx.JSNode) bool) bool {
+	if !st.Is("IfStatement") || !pred(st.N("test")) {
+		return false
+	}
+	found := false
+	st.N("consequent").Walk(func(n *ctx.JSNode) bool {
+		if n.Is("CallExpression") && n.N("callee").IdentName() == "$throwRuntimeError" {
+			found = true
+		}
+		return !found
+	})
+	return found
+}
+
+// isMemberOf: e is <ident>.<prop>
+func isMemberOf(e *ctx.JSNode, ident, prop string) bool {
+	return e.Is("MemberExpression") && e.MemberName() == prop && e.N("object").IdentName() == ident
+}
